@@ -115,6 +115,41 @@ ADV_ROOTS = ['do_return', 'retval_', 'break_', 'continue_', 'fscope', 'lscope',
 LOCAL_POOLS = {1: ['m0', 'm1', 'm2'], 2: ['n0', 'n1', 'n2']}
 
 
+UNUSUAL = [
+    "T({t!r}, f\"{{a!r:>{{b + 3}}}}|{{f'{{c}}'}}|{{{{}}}}\")",
+    "T({t!r}, {{(1, 2): a}}[1, 2])",
+    "T({t!r}, [*xs, *(a, b)])",
+    "T({t!r}, (n{n} := a + 1) + n{n})",
+    "T({t!r}, (lambda q=(lambda: b): q())())",
+    "u{n}, *r{n} = [a, b, c]\nT({t!r}, (u{n}, r{n}))",
+    "T({t!r}, -1 ** 2 + (-a) ** 2 - -b)",
+    "T({t!r}, {{**d, 'k2': a}})",
+    "T({t!r}, (xs[1:2], xs[::2], xs[a:b:2], xs[:]))",
+    "T({t!r}, a if b else c if a else b)",
+    "T({t!r}, a < b <= c != a)",
+    "T({t!r}, not -a or ~b and +c)",
+    "T({t!r}, ((a, (b, [c, {{a}}])), {{b: c}}))",
+    "T({t!r}, 1e3 + 0x10 + 0b11 + 1_000 + 2j.real)",
+    "T({t!r}, 'x' 'y' + \"q\\n\" + r'\\d' + b'z'.decode())",
+    "T({t!r}, [i{n} * j{n} for i{n} in range(2) for j{n} in range(3) if i{n} != j{n}])",
+    "T({t!r}, (lambda *aa, k=1, **kw: (aa, k, kw))(a, *xs, k=b, **{{'z': c}}))",
+    "for h{n}, *t{n} in [(1, 2, 3), (a, b)]:\n    T({t!r}, (h{n}, t{n}))",
+    "T({t!r}, xs[0] if xs else None)",
+    "assert a < 10 ** 6, 'big'",
+    "with CM({t!r}) as (cm{n}):\n    T({t!r}, cm{n}.n)",
+    "T({t!r}, d.get('k', a) + len(d.keys()))",
+    "T({t!r}, [x{n} for x{n} in xs][-1:] + xs[-2:])",
+    "T({t!r}, -(a + b) * -(-c))",
+    "T({t!r}, 3 .real + (4).imag + (a).__add__(b))",
+    "T({t!r}, (a, b)[a > b] if (b, c)[0] else {{1, 2}} - {{2}})",
+    "T({t!r}, a if a else b or c and not a)",
+    "T({t!r}, {{k{n}: v{n}_ for k{n}, v{n}_ in d.items() if k{n} != 'zz'}})",
+    "T({t!r}, (lambda: (lambda: a + b)())())",
+    "T({t!r}, ~a & b | c ^ 3 << 1 >> 1)",
+    "T({t!r}, 2 ** -1 + 7 // 2 + 7 % -3 + a / 4)",
+]
+
+
 class Profile(object):
   """Switches for the grammar. Defaults = the C01 class."""
   name = 'c01'
@@ -154,6 +189,7 @@ class Profile(object):
   dead_code = 0.02
   use_augassign = True
   use_tuple_assign = True
+  use_unusual = False
 
   def __init__(self, **kw):
     for k, v in kw.items():
@@ -180,6 +216,8 @@ def profile(name):
     return Profile(name='c06', unsafe_reads=0.0, implicit_exc=0.0, use_factory=False)
   if name == 'c11':
     return Profile(name='c11', adversarial_idents=True, unsafe_reads=0.0, implicit_exc=0.0)
+  if name == 'c17':
+    return Profile(name='c17', use_unusual=True, unsafe_reads=0.0, implicit_exc=0.0)
   if name == 'c03':
     return Profile(name='c03', use_directives=True, unsafe_reads=0.02)
   raise KeyError(name)
@@ -460,6 +498,8 @@ class Gen(object):
         opts.append(('def', 2))
     if p.use_lambda and fc.level < 2 and not (p.pure and p.lambda_later and depth > 0):
       opts.append(('lambda', 1))
+    if p.use_unusual and fc.level == 0 and not fc.in_try:
+      opts.append(('unusual', 5))
     if p.use_comprehension:
       opts.append(('comp', 1))
     if p.use_jumps and not fc.in_finally:
@@ -542,6 +582,12 @@ class Gen(object):
       self.emit(ind, 'xs[0] = %s' % self.expr(fc, blk, 1))
     else:
       self.emit(ind, "d['m'] = %s" % self.expr(fc, blk, 1))
+
+  def s_unusual(self, fc, blk, ind, depth):
+    self.uid += 1
+    text = self.rng.choice(UNUSUAL).format(t=self.newtag(), n=self.uid)
+    for ln in text.split('\n'):
+      self.emit(ind, ln)
 
   def s_if(self, fc, blk, ind, depth):
     self.emit(ind, 'if %s:' % self.cond(fc, blk))
